@@ -146,9 +146,13 @@ class Operand(ABC):
         if not self.is_unknown():
             return self
 
-        if self.value.is_numeric() and not self.value.is_negative() and (
+        if self.value.is_numeric() and not self.value.is_negative() and not old_value.is_explicit_extended() and (
                 old_value.is_explicit_direct() or (self.value.is_direct() and self.value.int <= 0xFF)):
             return DirectOperand(self.operand_string, self.instruction, DirectNumericValue(self.value.int))
+
+        if self.value.is_address() and old_value.is_explicit_direct():
+            # <LABEL: direct addressing was asked for, the address is checked once it is known
+            return DirectOperand(self.operand_string, self.instruction, value=self.value)
 
         return ExtendedOperand(self.operand_string, self.instruction, value=self.value)
 
